@@ -10,6 +10,7 @@
 (*   Done(r, tag)           caller r got a response with payload tag       *)
 (*   DoneErr(r)             caller r got an error                          *)
 (*   Fault(kind)            the server broke the connection / went silent  *)
+(*   Quiet(n, wrong, clash, unfinished)  n untracked requests passed through *)
 (*   End(pending, broken)   end of run: callers still waiting              *)
 (* Response payload of request r is r + 1000 by construction.              *)
 (***************************************************************************)
@@ -58,8 +59,12 @@ TrEnd == /\ IsEvent("End")
          /\ Rec[l].pending = << >>                   \* nobody is left waiting (C10: none hangs)
          /\ \A r \in submitted : r \in cancelled \/ r \in finished
          /\ UNCHANGED <<submitted, owed, answered, cancelled, finished, broken>>
+\* n further requests went through the connection meanwhile, judged by the harness one by one: each was answered with its own
+\* response (wrong = 0), none was written on a stream id still owed to another request (clash = 0), none was left waiting
+TrQuiet == /\ IsEvent("Quiet") /\ Rec[l].wrong = 0 /\ Rec[l].clash = 0 /\ Rec[l].unfinished = 0
+           /\ UNCHANGED <<submitted, owed, answered, cancelled, finished, broken>>
 TrReset == IsEvent("Reset") /\ Clear
-TraceNext == TrSubmit \/ TrRecv \/ TrSend \/ TrCancel \/ TrDone \/ TrDoneErr \/ TrFault \/ TrKeep \/ TrEnd \/ TrReset
+TraceNext == TrQuiet \/ TrSubmit \/ TrRecv \/ TrSend \/ TrCancel \/ TrDone \/ TrDoneErr \/ TrFault \/ TrKeep \/ TrEnd \/ TrReset
 TraceSpec == TraceInit /\ [][TraceNext]_tvars
 Progress == TLCSet(1, IF l > TLCGet(1) THEN l ELSE TLCGet(1))
 TraceAccepted == IF TLCGet(1) = Len(Rec) + 1 THEN TRUE
